@@ -574,7 +574,7 @@ class ExprMixin:
         r = self.try_dunder(a, "__str__", [], node, st, frame)
         if r is None:
             r = self.try_dunder(a, "__repr__", [], node, st, frame)
-        deps = a.deps | (r.deps if r is not None else frozenset())
+        deps = all_deps(a) | (r.deps if r is not None else frozenset())
         quals = set()
         if a.only("tuple"):
             quals.add("STR_OF_TUPLE")
